@@ -54,7 +54,7 @@ func hypFlow(p *core.Prog, d *core.Domain, f *ssa.Function, hyp map[ssa.Value]co
 }
 
 func c07(p *core.Prog, r *core.Report) {
-	r.Explain = "Decides structural necessary conditions of graceful close: (R1) every store to a connection/channel state field moves forward in the declared order for every possible prior value (finite-enum abstract interpretation, call-site sensitive for the moveState closure); (R2) each transition is performed under the state write lock and is guarded by its drain predicate; (R3) the closed signal (close of Channel.closed / Connection.stopCh) is reachable only from an invocation that itself performed the ->Closed store; (R4) every path in inbound admission on which a non-active state was observed ends in a declined 'closed' error frame; (R5) outbound admission and Connect fail locally in closing states; (R6) the listener wrapper's Close returns nil only after its accept refcount reached zero. The declined frame of a refused call is sent before any call that can re-evaluate the close state; (R7) the relay's pending count is balanced (shared with C09-R3). Channel.addConnection tracks a connection only while the channel is in the client/listening state (shared with C16). The state is read again after an outbound exchange is registered; an error answer is handed to the connection before the call's exchange is completed (this found and, after the repair, guards D18). Connection.SendSystemError queues the frame in every state but closed."
+	r.Explain = "Decides structural necessary conditions of graceful close: (R1) every store to a connection/channel state field moves forward in the declared order for every possible prior value (finite-enum abstract interpretation, call-site sensitive for the moveState closure); (R2) each transition is performed under the state write lock and is guarded by its drain predicate; (R3) the closed signal (close of Channel.closed / Connection.stopCh) is reachable only from an invocation that itself performed the ->Closed store; (R4) every path in inbound admission on which a non-active state was observed ends in a declined 'closed' error frame; (R5) outbound admission and Connect fail locally in closing states; (R6) the listener wrapper's Close returns nil only after its accept refcount reached zero. The declined frame of a refused call is sent before any call that can re-evaluate the close state; (R7) the relay's pending count is balanced (shared with C09-R3). Channel.addConnection tracks a connection only while the channel is in the client/listening state (shared with C16). The state is read again after an outbound exchange is registered; an error answer is handed to the connection before the call's exchange is completed (this found and, after the repair, guards D18). Connection.SendSystemError queues the frame in every state but closed. The close-state callback reads the channel state after it removed the closed connection; (R8) the writer drains its queue before closing the socket (shared with C10-R2); a refusal sent through a helper is followed."
 	r.NotDecided = "that in-flight calls actually complete and their results are delivered; behaviour under every interleaving (the rules are per-path, not per-schedule); timing."
 	r.Rule("C07-R1", "E1 enumset", 6, "state stores only move forward (max(prior) <= min(new))")
 	r.Rule("C07-R2", "E1+E4+E6", 6, "transition under write lock and guarded by its drain predicate")
